@@ -240,9 +240,9 @@ def rawGood : RawLatFull :=
   { sizes := .s false [.a (.int 3), .a (.int 3)], mono := .s false [.a (.int 1), .a (.int 0)],
     ew := .s false [.s true [.int 0, .int 1, .int 1]], jm := .s false [.s true [.int 0, .int 1]] }
 
-/-- `joint_monotonicities=[(0, 0)]` and `monotonic_dominances=[(0, 0)]` (on a 3×3 lattice) are ACCEPTED
-by the model of `verify_hyperparameters` (as by the real one: finding F-C08-c) -/
-theorem selfPair_accepted : outcome (verifyLattice rawSelfJm) = 0 ∧ outcome (verifyLattice rawSelfMd) = 0 := by
+/-- `joint_monotonicities=[(0, 0)]` and `monotonic_dominances=[(0, 0)]` (on a 3×3 lattice) are REJECTED
+by the model of `verify_hyperparameters` (as by the real one since fix 18dd711; formerly finding F-C08-c) -/
+theorem selfPair_rejected : outcome (verifyLattice rawSelfJm) = 1 ∧ outcome (verifyLattice rawSelfMd) = 1 := by
   decide +kernel
 
 /-- a joint monotonicity listed twice (`[(0, 1), (0, 1)]` on a 3×2 lattice, the configuration of
